@@ -302,7 +302,8 @@ struct Engine
             memcpy(src.p, io->in.data(), n * ncols * 8);
             std::unique_ptr<ExactBuf> dstb, bufb;
             if (c.alias == 1) { dstb.reset(new ExactBuf(n * ncols, !((c.threads + c.d) & 1))); for (uint64_t i = 0; i < n * ncols; i++) dstb->p[i] = SENT; }
-            if (c.buffer) { bufb.reset(new ExactBuf(n * ncols_alloc, c.nphase & 1)); for (uint64_t i = 0; i < n * ncols_alloc; i++) bufb->p[i] = SENT; }
+            // caller scratch: size*ncols elements, the extent the repository's own callers and extendPol provide
+            if (c.buffer) { bufb.reset(new ExactBuf(n * ncols, c.nphase & 1)); for (uint64_t i = 0; i < n * ncols; i++) bufb->p[i] = SENT; }
             std::unique_ptr<NTT_Goldilocks> own;
             NTT_Goldilocks *ntt = shared;
             if (!ntt) { own.reset(new NTT_Goldilocks((uint64_t)1 << c.S, c.threads)); ntt = own.get(); if (c.preuse) preuse(*ntt, c); }
@@ -665,7 +666,8 @@ static void run_roundtrips(const vf::Args &args, Report &rep)
                 Leg &l = leg[s];
                 uint64_t effb = l.nblock < 1 ? 1 : (l.nblock > ncols ? ncols : l.nblock);
                 uint64_t nca = ncols / effb + (ncols % effb ? 1 : 0);
-                ExactBuf src(n * ncols, s), dst(n * ncols, !s), buf(n * nca, true);
+                ExactBuf src(n * ncols, s), dst(n * ncols, !s), buf(n * ncols, true);
+                (void)nca;
                 memcpy(src.p, cur.data(), n * ncols * 8);
                 El *dp = l.alias == 0 ? src.el() : (l.alias == 1 ? dst.el() : NULL);
                 if (inverse) objs[s]->INTT(dp, src.el(), n, ncols, l.buffer ? buf.el() : NULL, l.nphase, l.nblock);
@@ -825,6 +827,14 @@ int main(int argc, char **argv)
         int kind = what == "C03" ? K_NTT : K_INTT;
         if (args.shard == 0) run_roots(rep, what.c_str());
         build_grid(cfgs, kind, (int)args.getu("smax", th ? 8 : 5), 9, (int)args.getu("dmax", th ? 20 : 12), args.getu("large", th ? 2000 : 150), args.seed, args.getu("thin", th ? 1 : 3));
+        // a few big transforms in every tier (index arithmetic beyond 2^16 rows)
+        if (args.getu("big", 1))
+            for (int d : {16, 17, 18})
+            {
+                Cfg c;
+                c.kind = kind; c.S = d; c.d = d; c.ncols = d == 17 ? 2 : 1; c.nphase = d == 16 ? 3 : (d == 17 ? 4 : 1); c.nblock = d == 17 ? 2 : 1; c.alias = d % 3; c.threads = d == 18 ? 3 : 16; c.buffer = d & 1;
+                cfgs.push_back(c);
+            }
         if (th && args.getu("d22", 1)) for (int t = 0; t < 3; t++) { Cfg c; c.kind = kind; c.S = 22; c.d = 22; c.ncols = 1 + t; c.nphase = t == 0 ? 3 : (t == 1 ? 4 : 1); c.nblock = t; c.alias = t; c.threads = 16; cfgs.push_back(c); }
         run_cfgs(args, rep, eng, cfgs, kind == K_NTT ? "ntt_grid" : "intt_grid");
         run_linearity(args, rep, kind, th ? 10 : 8);
@@ -834,6 +844,13 @@ int main(int argc, char **argv)
     {
         if (args.shard == 0) run_roots(rep, "C05");
         build_ext_grid(cfgs, (int)args.getu("emax", th ? 10 : 6), 7, (int)args.getu("elarge", th ? 20 : 12), args.getu("large", th ? 1500 : 120), args.seed, args.getu("thin", th ? 1 : 4));
+        if (args.getu("big", 1))
+            for (int e : {17, 18})
+            {
+                Cfg c;
+                c.kind = K_EXT; c.e = e; c.d = e - (e == 17 ? 1 : 3); c.S = c.d; c.ncols = 1; c.nphase = e == 17 ? 3 : 2; c.nblock = 1; c.alias = e & 1; c.threads = e == 18 ? 3 : 16; c.buffer = e & 1;
+                cfgs.push_back(c);
+            }
         run_cfgs(args, rep, eng, cfgs, "extendpol_grid");
         run_linearity(args, rep, K_EXT, th ? 9 : 7);
     }
